@@ -10,6 +10,7 @@ import (
 	"io/fs"
 	"os"
 	"path/filepath"
+	"regexp"
 	"sort"
 	"strings"
 )
@@ -19,6 +20,8 @@ const (
 	manifestTmp = "manifest.json.tmp"
 	ckptTmp     = ckptName + ".tmp"
 )
+
+var generatedAt = regexp.MustCompile(`"generated_at": "[^"]*"`)
 
 type entry struct {
 	Path string // slash-separated, relative to the output directory
@@ -42,8 +45,15 @@ func (s *state) seal() {
 	}
 	for i, e := range s.entries {
 		s.idx[e.Path] = i
-		fmt.Fprintf(h, "%q %v %d\n", e.Path, e.Dir, len(e.Data))
-		h.Write(e.Data)
+		data := e.Data
+		switch e.Path {
+		case ckptName, ckptTmp, "manifest.json", manifestTmp:
+			// the start time of the run is carried through checkpoint and manifest; it has no
+			// influence on what a resume does, and two runs of the same case differ in nothing else
+			data = generatedAt.ReplaceAll(data, []byte(`"generated_at": "T"`))
+		}
+		fmt.Fprintf(h, "%q %v %d\n", e.Path, e.Dir, len(data))
+		h.Write(data)
 	}
 	copy(s.hash[:], h.Sum(nil))
 }
